@@ -243,6 +243,10 @@ func (c06) Gen(r *sim.Rand, tier string, run uint64) *sim.Scenario {
 	if !far && sc.Cfg["cap"] >= int64(total+16) && r.Chance(1, 6) {
 		// a block of the history goes through Clone/Append: still one sequence of emitter calls
 		ops = withCloneSegment(r, ops, map[string]bool{"finalize": true, "setbase": true})
+	} else if !far && sc.Cfg["cap"] < int64(total) && r.Chance(1, 2) {
+		// tight target: a block through Clone whose Append may be refused; the caller recovers
+		// and carries on with the original, which must know nothing of the refused block
+		ops = withCloneSegment(r, ops, map[string]bool{"finalize": true, "setbase": true})
 	}
 	sc.Cfg["gentext"] = int64(r.Intn(2))
 	if far {
@@ -366,15 +370,25 @@ func c06run(sc *sim.Scenario, env *sim.Env, st *sim.Stats, observe bool) c06resu
 		return res
 	}
 	failedBefore := false
+	type keptErr struct {
+		err  error
+		text string
+	}
+	var kept []keptErr
 	var seg cloneSeg
-	roomy := capacity >= 64 // blocks through Clone only when nothing is refused for capacity
+	var mSave *asmModel // the model before the block that is going through a clone
 	for i, op := range sc.Ops {
 		if st != nil {
 			st.SimOps++
 		}
 		if op.K == "clone" {
-			if !seg.active() && roomy {
-				if msg := seg.begin(&e, capacity); msg != "" {
+			if !seg.active() {
+				mSave = m.clone()
+				room := capacity
+				if room < 1<<14 {
+					room = 1 << 14 // the block itself always fits its own buffer
+				}
+				if msg := seg.begin(&e, room); msg != "" {
 					return viol(i, "clone_panic", "%s", msg)
 				}
 				m.NoCap = true
@@ -388,9 +402,22 @@ func c06run(sc *sim.Scenario, env *sim.Env, st *sim.Stats, observe bool) c06resu
 			if seg.active() {
 				m.NoCap = false
 				if m.Len > capacity {
-					// the block does not fit: a refused Append is C19's and C16's subject; stop here
-					seg.end(&e)
-					return res
+					// the block does not fit. Whether the Append is refused is C19's and C16's
+					// subject; here the caller recovers from the refusal and carries on: the
+					// original then holds none of the block's labels and references
+					_, msg := seg.end(&e)
+					if msg == "" || mSave == nil {
+						return res
+					}
+					m = mSave
+					if st != nil {
+						st.Probe("append_refused_then_carried_on")
+						st.Fault("append_refused")
+					}
+					if env != nil {
+						env.FaultYield("op")
+					}
+					continue
 				}
 				lenBefore := seg.orig.Len()
 				block, msg := seg.end(&e)
@@ -464,6 +491,13 @@ func c06run(sc *sim.Scenario, env *sim.Env, st *sim.Stats, observe bool) c06resu
 					}
 				}
 			} else {
+				// an error value already handed to the caller keeps saying what it said
+				for _, k := range kept {
+					if now := k.err.Error(); now != k.text {
+						return viol(i, "error_text_changed", "the error returned by an earlier Finalize read %q when it was returned and reads %q now (after a later Finalize failed with %q)", k.text, now, err.Error())
+					}
+				}
+				kept = append(kept, keptErr{err, err.Error()})
 				failedBefore = true
 				res.postFail = append(res.postFail, post.Bytes)
 				for j := range post.Bytes {
